@@ -777,8 +777,18 @@ class Interp:
             if r_ is BOTTOM:
                 return BOTTOM  # __init__ raised
             return obj
+        plain_bases = all((isinstance(b, ClassV) or (isinstance(b, ExtV) and b.name.split(".")[-1] in ("object", "ABC", "Protocol", "Generic", "ABCMeta"))) for b in self._all_bases(c))
+        if plain_bases and not args and not kwargs:
+            # a repository class without __init__ (and no foreign base): a plain instance
+            return Obj(f"{c.module.name}.{c.qualname}", cls=c)
         term = T("new", (f"{c.module.name}.{c.qualname}", tuple(_term(a) for a in args), tuple(sorted((k, _term(v)) for k, v in kwargs.items()))))
         return Obj(f"{c.module.name}.{c.qualname}", cls=c, term=term)
+
+    def coerce_enum(self, v: Any) -> Any:
+        """A member of an IntEnum / StrEnum *is* its value for arithmetic, indexing, comparison and hashing."""
+        if isinstance(v, Obj) and isinstance(v.cls, ClassV) and v.cls.enum_members is not None and "value" in v.attrs and any(self.is_subclass_of_ext(v.cls, b) for b in ("IntEnum", "StrEnum", "IntFlag")):
+            return v.attrs["value"]
+        return v
 
     def dunder(self, v: Any, name: str) -> Any:
         """The special method `name` of an instance of a repository class (bound), else None."""
@@ -788,7 +798,22 @@ class Interp:
                 return Bound(m, v)
         return None
 
+    def dynamic_class(self, name: Any, bases: Any, namespace: Dict[str, Any], mi: Any) -> ClassV:
+        """type(name, bases, namespace) / types.new_class: a class object built at run time."""
+        nm = name if isinstance(name, str) else "dynamic"
+        node = ast.ClassDef(name=nm, bases=[], keywords=[], body=[ast.Pass()], decorator_list=[])
+        node.lineno = node.col_offset = 0
+        c = ClassV(node, mi if mi is not None else self.cur_mod, str(namespace.get("__qualname__", nm)), None)
+        c.overrides.update({k: v for k, v in namespace.items() if isinstance(k, str)})
+        c.overrides["__bases__"] = list(self.concrete_iter(bases) or [])
+        for v in c.overrides.values():
+            if isinstance(v, FuncV) and v.cls is None:
+                pass
+        return c
+
     def class_bases(self, c: ClassV) -> List[Any]:
+        if "__bases__" in c.overrides:
+            return list(c.overrides["__bases__"])
         out = []
         for b in c.node.bases:
             try:
@@ -811,13 +836,30 @@ class Interp:
             if isinstance(st, ast.Assign):
                 for t in st.targets:
                     if isinstance(t, ast.Name) and t.id == name:
-                        return self.eval(st.value, Env(c.env, {}), c.module)
+                        return self.class_const(c, name, st.value)
+            if isinstance(st, ast.AnnAssign) and st.value is not None and isinstance(st.target, ast.Name) and st.target.id == name:
+                return self.class_const(c, name, st.value)
         for b in self.class_bases(c):
             if isinstance(b, ClassV):
                 r = self.class_attr(b, name)
                 if r is not None:
                     return r
         return None
+
+    def _all_bases(self, c: ClassV, depth: int = 0) -> List[Any]:
+        out: List[Any] = []
+        for b in self.class_bases(c):
+            out.append(b)
+            if isinstance(b, ClassV) and depth < 10:
+                out.extend(self._all_bases(b, depth + 1))
+        return out
+
+    def class_const(self, c: ClassV, name: str, expr: ast.AST) -> Any:
+        """A class-level attribute is evaluated once (one object shared by every access, as in Python)."""
+        key = "__const__:" + name
+        if key not in c.overrides:
+            c.overrides[key] = self.eval(expr, Env(c.env, {}), c.module)
+        return c.overrides[key]
 
     def class_setter(self, c: ClassV, name: str) -> Any:
         for st in c.node.body:
@@ -1740,6 +1782,7 @@ class Interp:
 
     def binop(self, op: ast.operator, a: Any, b: Any, node: Any, inplace: bool = False) -> Any:
         name = _OPNAME[type(op)]
+        a, b = self.coerce_enum(a), self.coerce_enum(b)
         if isinstance(a, Unknown):
             return a
         if isinstance(b, Unknown):
@@ -1765,6 +1808,12 @@ class Interp:
             if name == "mul":
                 return "<str>"
             raise Unsupported("string operator")
+        if name in ("and", "or", "sub", "xor") and (isinstance(a, (set, frozenset)) or isinstance(b, (set, frozenset))) and isinstance(a, (set, frozenset, list)) and isinstance(b, (set, frozenset, list)):
+            # dict.keys() views (modelled as lists) take part in set algebra
+            try:
+                a, b = set(a), set(b)
+            except TypeError:
+                raise Unsupported("set algebra over unhashable abstract values")
         if isinstance(a, (set, frozenset)) and isinstance(b, (set, frozenset)) and name in ("and", "or", "sub", "xor"):
             return {"and": a & b, "or": a | b, "sub": a - b, "xor": a ^ b}[name]
         if isinstance(a, dict) and isinstance(b, dict) and name == "or":
@@ -1797,6 +1846,8 @@ class Interp:
         return pend[0] if len(pend) == 1 else _boolcomb(True, pend)
 
     def compare(self, op: ast.cmpop, a: Any, b: Any, node: Any) -> Any:
+        if not isinstance(op, (ast.Is, ast.IsNot)):
+            a, b = self.coerce_enum(a), self.coerce_enum(b)
         if isinstance(op, (ast.Is, ast.IsNot)):
             neg = isinstance(op, ast.IsNot)
             if a is None or b is None:
@@ -2052,6 +2103,16 @@ class Interp:
         if isinstance(v, tuple):
             if attr in ("count", "index"):
                 return _Builtin(f"tuple.{attr}", lambda it, a, k, nd, s=v, at=attr: getattr(s, at)(*a))
+        if isinstance(v, _Builtin) and v.name == "dict" and attr == "fromkeys":
+            def _fromkeys(it, a, k, nd):
+                seq = it.concrete_iter(a[0])
+                if seq is None:
+                    raise Unsupported("dict.fromkeys over a non-concrete iterable")
+                return {x: (a[1] if len(a) > 1 else None) for x in seq}
+
+            return _Builtin("dict.fromkeys", _fromkeys)
+        if isinstance(v, _Builtin) and v.name == "str" and attr in ("join", "format", "startswith", "lower", "upper"):
+            return _Builtin(f"str.{attr}", lambda it, a, k, nd, at=attr: _str_method(a[0], at, list(a[1:]), k))
         if isinstance(v, PartialV) and attr in ("func", "args", "keywords"):
             return getattr(v, attr)
         if isinstance(v, Unknown):
@@ -2082,6 +2143,7 @@ class Interp:
         return T("slice", (_term(lo), _term(hi), _term(st)))
 
     def getitem(self, v: Any, idx: Any, node: Any) -> Any:
+        idx = self.coerce_enum(idx)
         if isinstance(v, (tuple, list, Shape, str, range)):
             if isinstance(idx, (int, slice)):
                 try:
@@ -2130,6 +2192,7 @@ class Interp:
     def dict_lookup(self, d: Dict[Any, Any], idx: Any, missing: Callable[[], Any], node: Any) -> Any:
         """d[idx] / d.get(idx): keys that are equal to a symbolic index only under a condition
         give a γ-value (the entry under that condition, else the next candidate / `missing`)."""
+        idx = self.coerce_enum(idx)
         if _hashable(idx) and idx in d:
             return d[idx]
         cands: List[Tuple[Any, Any]] = []
